@@ -35,6 +35,7 @@ func main() {
 		inl      = flag.Int("inline", 0, "debug: inline depth for -dump")
 		list     = flag.Bool("list", false, "debug: list repository functions")
 		explain  = flag.String("explain", "", "print a violations file in readable form")
+		metaDump = flag.Bool("meta", false, "print the registered properties and their descriptions as JSON")
 		region   = flag.Int("region", -1, "debug: start -dump at this block index")
 		maxp     = flag.Int("maxp", 12, "debug: max paths printed by -dump")
 		grep     = flag.String("grep", "", "debug: only print paths containing this substring")
@@ -48,6 +49,15 @@ func main() {
 		} else {
 			*verifDir = "/verif"
 		}
+	}
+	if *metaDump {
+		out := map[string]any{}
+		for id, r := range registry {
+			out[id] = map[string]any{"explanation": r.meta.Explanation, "not_decided": r.meta.NotDecided, "assumptions": r.meta.Assumptions}
+		}
+		b, _ := json.MarshalIndent(out, "", " ")
+		fmt.Println(string(b))
+		return
 	}
 	if *explain != "" {
 		b, err := os.ReadFile(*explain)
